@@ -127,6 +127,13 @@ func (d *dir) RepoGet(ctx context.Context, repoStr string) (Repo, error) {
 		// wgBlock prevents adding to the WG while a wg.Wait is running, GC blocks new requests
 		select {
 		case <-dr.wgBlock:
+			// a request that waited for the token behind a GC may find the store closed in the meantime
+			select {
+			case <-d.stop:
+				dr.wgBlock <- struct{}{}
+				return nil, fmt.Errorf("cannot get repo after Close")
+			default:
+			}
 			dr.wg.Add(1)
 			dr.wgBlock <- struct{}{}
 			return dr, nil
@@ -192,7 +199,10 @@ func (d *dir) Close() error {
 			errs = append(errs, err)
 			continue
 		}
+		// wait with the token held like the GC does, nothing may be added to the wait group during the wait
+		<-repo.wgBlock
 		repo.wg.Wait()
+		repo.wgBlock <- struct{}{}
 		if !*d.conf.Storage.ReadOnly {
 			// cancel each upload with its own lock held, the expiry timer may be pruning the same session
 			sessions, err := repo.uploads.List()
